@@ -164,12 +164,14 @@ class DenseMatrix(Matrix):
             if subjac.dense:
                 view = self._matrix[subjac.row_slice, subjac.col_slice]
                 val = subjac.info['val'] if randgen is None else subjac.get_rand_val(randgen)
+                if subjac.factor is not None:
+                    # scale only this subjac's entries: the view spans the whole source variable
+                    # and may hold entries written by other subjacs
+                    val = val * subjac.factor
                 if subjac.src_indices is not None:
                     view[:, subjac.src_indices] = val
                 else:
                     view[:, :] = val
-                if subjac.factor is not None:
-                    view *= subjac.factor
             else:
                 data, rows, cols = subjac.as_coo_info(full=True, randgen=randgen)
                 self._matrix[rows, cols] = data  # only works if there are no repeated indices
